@@ -63,6 +63,8 @@ type FuncContract struct {
 	Epilogue []Clause // ghost assignments executed at every return (ghost code of the function)
 	Modifies []string
 	Safety   []string // property tags under which panic-freedom obligations are claimed
+	ChanTags   []string
+	ChanResult string // the result is the channel whose ghost log is named by this counter (`yields log N`)
 	Owns     []string // property tags under which hand-over obligations ([]byte sent on a channel is not written afterwards) are claimed
 	Term     []string // property tags for termination (decreases) obligations
 	Pure     bool
@@ -338,7 +340,7 @@ var topKeywords = map[string]bool{"func": true, "closure": true, "spec": true, "
 var clauseKeywords = map[string]bool{"requires": true, "ensures": true, "modifies": true, "safety": true, "pure": true,
 	"inline": true, "may_panic": true, "witness": true, "lemma": true, "role": true, "holds": true, "acquires": true,
 	"decreases": true, "loop": true, "invariant": true, "unfold": true, "method": true, "reads": true, "trusted": true,
-	"assumed": true, "terminates": true, "call": true, "hint": true, "anchor": true, "reveal": true, "assert": true, "after": true, "forall": true, "inst": true, "callback": true, "assumes": true, "epilogue": true, "set": true, "handover": true}
+	"assumed": true, "terminates": true, "call": true, "hint": true, "anchor": true, "reveal": true, "assert": true, "after": true, "forall": true, "inst": true, "callback": true, "assumes": true, "epilogue": true, "set": true, "handover": true, "yields": true}
 
 func firstWord(s string) string {
 	s = strings.TrimSpace(s)
@@ -568,6 +570,15 @@ func (cs *Contracts) parseFuncClauses2(fc *FuncContract, loop *LoopSpec, call *C
 	case "terminates":
 		tags, _, _ := parseTagged(rest)
 		fc.Term = append(fc.Term, tags...)
+	case "yields":
+		// yields log <N>: the (channel) result is the one logged by chanlog ... N ...
+		tags, _, body := parseTagged(rest)
+		f := strings.Fields(body)
+		if len(f) != 2 || f[0] != "log" {
+			fatalf("%s:%d: yields log <counter>", path, l.line)
+		}
+		fc.ChanResult = f[1]
+		fc.ChanTags = tags
 	case "handover":
 		tags, _, _ := parseTagged(rest)
 		fc.Owns = append(fc.Owns, tags...)
